@@ -28,6 +28,8 @@ def gen(rng, k, tier, sms):
         pool['use_worker_state'] = True
     if rng.random() < 0.3:
         pool['keep_alive'] = True
+    if rng.random() < 0.3:
+        pool['enable_insights'] = True          # the task then runs inside the insights' timing context manager
     n = rng.choice([1, 3, 6, 13, 30])
     params = {}
     m = rng.choice(['cs', 'cs', 'def', 'ns'])
